@@ -3,7 +3,8 @@ package influxql
 // C01 — the parser accepts the documented grammar and builds the AST it denotes.
 
 func c01Kind(kind int, tier int) {
-	g := &vfGen{tier: tier, budget: 1 + tier}
+	b, sb := vfBudget(vfStmtGens[kind].name, tier)
+	g := &vfGen{tier: tier, budget: b, sub: sb}
 	want := vfStmtGens[kind].gen(g)
 	text := g.text()
 	vfNote(text)
